@@ -140,6 +140,7 @@ func (g *genCtx) cacheContainer(sc *ConcScenario, kinds []string) {
 	sc.Kind = kinds[g.r.Intn(len(kinds))]
 	g.hashMode(sc)
 	sc.MinLen = 32
+	sc.PrefillKeep = -1
 	ct := CacheCtor{Kind: sc.Kind}
 	switch g.pick([]int{50, 40, 10}) {
 	case 0:
@@ -159,18 +160,57 @@ func (g *genCtx) cacheContainer(sc *ConcScenario, kinds []string) {
 	if sc.Kind != "cache" {
 		per = 5
 	}
-	grow := int(32 * float64(per) * 0.75)
-	if ct.SetCap && ct.MinCap > 96 {
-		sc.Prefill = 0
-	} else {
-		switch g.pick([]int{55, 45}) {
-		case 0:
-			sc.Prefill = 0
-		case 1:
-			sc.Prefill = grow - 1 + g.r.Intn(3)
-		}
+	// knobs: with the shipped floor (96) a cache's table never has fewer than
+	// 32 buckets; with the floor lowered the table is as small as a map's
+	if g.r.Bool(0.55) {
+		sc.MinCap = 1
+		sc.MinLen = []int{1, 2, 4, 32}[g.r.Intn(4)]
 	}
-	sc.PrefillKeep = -1
+	tableLen := cacheTableLen(sc, per)
+	grow := int(float64(tableLen) * float64(per) * 0.75)
+	switch g.pick([]int{45, 40, 15}) {
+	case 0:
+		sc.Prefill = 0
+	case 1:
+		sc.Prefill = grow - 1 + g.r.Intn(3)
+	case 2:
+		sc.Prefill = grow + 2 + g.r.Intn(3)
+		sc.PrefillKeep = g.r.Intn(3)
+	}
+	if sc.Prefill < 0 {
+		sc.Prefill = 0
+	}
+	if sc.Prefill > 200 {
+		sc.Prefill = 0
+	}
+	if sc.PrefillKeep >= sc.Prefill {
+		sc.PrefillKeep = -1
+	}
+}
+
+// cacheTableLen: the table length a cache starts with (for aiming the prefill
+// at the grow threshold; only probes depend on it being right).
+func cacheTableLen(sc *ConcScenario, per int) int {
+	floor := 96
+	if sc.MinCap > 0 {
+		floor = sc.MinCap
+	}
+	minLen := sc.MinLen
+	if minLen <= 0 {
+		minLen = 32
+	}
+	hint := floor
+	if sc.Ctor.Ctor == "new" && sc.Ctor.SetCap && sc.Ctor.MinCap > hint {
+		hint = sc.Ctor.MinCap
+	}
+	if hint <= minLen*per {
+		return minLen
+	}
+	n := 1
+	for float64(n) < float64(hint)/float64(per)/0.75 {
+		n <<= 1
+	}
+	return n
 }
 
 type mixWeights struct {
